@@ -35,9 +35,14 @@ def _limit_worker():
         pass
 
 
+_ABORT = None      # shared flag (set by pmap before the pool is forked): the family has been abandoned, remaining chunks return at once
+
+
 def _run_chunk(args):
     func, chunk, extra = args
     st = Stats()
+    if _ABORT is not None and _ABORT.value:
+        return st
     try:
         func(chunk, st, *extra)
     except BaseException as e:  # a crash of the harness itself must not be silent
@@ -80,15 +85,21 @@ def pmap(func, items, extra=(), chunk=None, procs=None, stats=None):
         for c in chunks:
             stats.merge(_run_chunk((func, c, extra)))
         return stats
+    global _ABORT
     ctx = multiprocessing.get_context('fork')
+    _ABORT = ctx.Value('i', 0)
+    # (no pool.terminate() in mid-flight: with tasks still queued it can wait for ever for its own feeder thread; the workers are told
+    # through the shared flag to return at once, and the pool is closed the ordinary way)
     with ctx.Pool(procs, initializer=_limit_worker) as pool:
         done = 0
         for st in pool.imap_unordered(_run_chunk, [(func, c, extra) for c in chunks]):
             stats.merge(st)
             done += 1
-            if FAILFAST and done < len(chunks) and _unknown_violations(stats) >= FAILFAST:
+            if FAILFAST and not _ABORT.value and done < len(chunks) and _unknown_violations(stats) >= FAILFAST:
                 stats.caps.append('%s: abandoned after %d of %d chunks with %d violations collected (VERIF_FAILFAST)' % (
                     getattr(func, '__name__', '?'), done, len(chunks), _unknown_violations(stats)))
-                pool.terminate()
-                break
+                _ABORT.value = 1
+        pool.close()
+        pool.join()
+    _ABORT = None
     return stats
